@@ -1,0 +1,8 @@
+// Copyright (c) 2025, Peter Ohler, All rights reserved.
+
+//go:build !verif
+
+package repl
+
+// verifPoint is a no-op unless built with the verif tag.
+func verifPoint(string, any) {}
